@@ -146,7 +146,7 @@ pub fn run(prop: &str, req: &str, rep: &str, outfile: &str) {
             let first = q.split(' ').next().unwrap_or("");
             if ["new", "load", "create_table", "drop_table", "insert", "update", "delete", "select", "stream_write",
                 "stream_read", "stream_remove", "has_stream", "streams", "snapshot", "reopen", "flush", "raw",
-                "sum_set", "sum_clear", "set_db_cp", "remove_sig", "@file_edit"].contains(&first)
+                "sum_set", "sum_clear", "set_db_cp", "remove_sig", "@file_edit", "@ctime_now", "@readonly_file_mutation"].contains(&first)
             {
                 w.step(i, q, r);
             }
